@@ -181,13 +181,13 @@ _LAWS = ("Law library spec/laws.py (algebra of filter/calc/proj/dedup/sort/slice
 PROPS["C04"].update(
     level_text="commute of all 9 operation classes is proved against the C04 contract for every one of the 6 node-capable existing operation classes (54 cells, each its own obligation), "
                "with the target rows a free variable: well-formedness of the reported operations, row-sequence equality for full and partial moves, refusal hands back the existing operation. "
-               "Three cells are genuine defects recorded as known findings (F4, F7, F19), each re-proved with the finding's witness class excluded.",
+               "Two cells are genuine defects recorded as known findings (F4, F19), each re-proved with the finding's witness class excluded; a third (F7, join past a projection hiding a shadowed column) was repaired in /repo and its cell is now proved.",
     level_note=_COMMON_NOTE + _LAWS + "join cells assume a resolved join without columns exposed by both operands outside the join columns. Undischarged obligations get a bounded native search (replay/concretise.py) for a concrete failing input.",
 )
 PROPS["C03"].update(
     level_text="UnaryOperation.apply, every _begin_apply, iteration and base Engine.backtrack_unary, MarkerRelation.reapply and Engine.transfer/append_unary are proved: the returned relation's rows equal the operation applied at the root "
                "for every option combination, ColumnError only for requests ill-formed at the root, locked trees untouched. The projection cells of backtrack_unary (partially moved projections) are covered by a bounded native stand-in, labelled bounded.",
-    level_note=_COMMON_NOTE + _LAWS + "SQL-engine implementations of append_unary/transfer/conform are assumed to meet the generic engine contracts (C02/C17). Joins: unshadowed, preferred engine = fixed operand's engine. Known findings F4/F7/F19 (commute) apply.",
+    level_note=_COMMON_NOTE + _LAWS + "SQL-engine implementations of append_unary/transfer/conform are assumed to meet the generic engine contracts (C02/C17). Joins: unshadowed, preferred engine = fixed operand's engine. Known findings F4/F19 (commute) apply; F7 is repaired.",
 )
 PROPS["C05"].update(
     level_text="Slice.then (window arithmetic, all integers), Sort.then (loop invariant over term lists), simplify of every class and the recursive merging in UnaryOperation._finish_apply are proved: the merged tree has exactly the rows of the two operations in sequence, "
@@ -244,7 +244,7 @@ PROPS["C17"].update(
     level_text="Select coherence is a class invariant (rows(select.target) == slice(dedup?(proj?(sort(rows(skip_to))))) with the recorded operations; peeling the recorded slice/deduplication/projection/sort nodes off select.target arrives at skip_to; is_compound iff skip_to is a Chain node; "
                "skip_to has no managed operation on top) proved at the only construction site, Select.apply_skip, for all arguments. sql.Engine.conform is proved idempotent (a Select is returned as the same object) and content-preserving (rows, columns, engine) by recursion on any well-formed tree; "
                "_append_unary_to_select (every operation class and flag combination) and _append_binary_to_select are proved to return a Select whose rows are the operation applied; Select.reapply/strip and Engine.append_unary/append_binary/transfer/materialize return Selects with the expected rows.",
-    level_note=_COMMON_NOTE + _LAWS + "Five genuine defects surface as failing obligations and are recorded as known findings, each re-proved with its witness class excluded: F11 (marker/skip target divergence), F23, F10 (sort column projected away: accepted tree does not compile), F24 (calculation re-binds a hidden column), F7-sql (join hoists a projection). "
+    level_note=_COMMON_NOTE + _LAWS + "Six genuine defects surfaced as failing obligations while these contracts were written; five were repaired in /repo (F15, F24, F23, F10, F7-sql: see KNOWN_FINDINGS.json) and their obligations are now proved; F11 (marker/skip target divergence, rows unaffected) is a known finding re-proved with its witness class excluded. "
                "Assumed: Select objects are only built by apply_skip; SQL emission is outside this check (C02).",
 )
 PROPS["C07"].update(
